@@ -14,10 +14,15 @@ def normalise(cfg):
     c.setdefault("advRounds", 0)
     c.setdefault("perm", [])
     c.setdefault("adv", [])
+    est = {(a["o"], a["k"]): a["est"] for a in c["plan"]}
     for ob in c["obs"]:
         for n in ob["wf"]["nodes"]:
             if n.get("data") is None:
                 n["data"] = 0
+        # order of plan.tasks: topological order, stably sorted by est
+        # (static plans only; batch plans keep the topological order)
+        to = topo_order(ob["wf"])
+        ob["torder"] = sorted(to, key=lambda k: est.get((ob["o"], k), 0))
     return c
 
 
@@ -26,8 +31,8 @@ def lcm(a, b):
 
 
 def topo_order(wf):
-    """networkx.topological_sort order for a graph whose nodes were inserted
-    in list order (Kahn with insertion-order tie-break, as networkx does)."""
+    """networkx.topological_sort order (generation by generation, insertion
+    order inside a generation) for a graph built from wf in list order."""
     nodes = [n["k"] for n in wf["nodes"]]
     indeg = {k: 0 for k in nodes}
     succ = {k: [] for k in nodes}
@@ -37,12 +42,13 @@ def topo_order(wf):
     zero = [k for k in nodes if indeg[k] == 0]
     out = []
     while zero:
-        k = zero.pop()
-        out.append(k)
-        for v in succ[k]:
-            indeg[v] -= 1
-            if indeg[v] == 0:
-                zero.append(v)
+        gen, zero = zero, []
+        for k in gen:
+            out.append(k)
+            for v in succ[k]:
+                indeg[v] -= 1
+                if indeg[v] == 0:
+                    zero.append(v)
     return out
 
 
@@ -105,10 +111,14 @@ def random_cfg(rng, alg=None, family="roomy", nobs=None, maxn=4):
         hot = (sum(vols) * 10) // 6 + 2 + rng.randint(0, 3)
         cold = max(vols) + rng.randint(0, 5)
     elif family == "tight":
-        # admission is refused for a while but the 60% threshold is never crossed
-        v = max(vols)
+        # observations follow one another (no overlapping ingest), each fills
+        # 60% of the hot buffer: admission is refused until the previous
+        # workflow has completed, but the 60% threshold is never exceeded
+        t = rng.randint(0, 2)
         for o in obs:
             o["rate"], o["dur"] = 3, 2
+            o["est"] = t
+            t += 2 + rng.randint(0, 2)
         hot = 10
         cold = 6 + rng.randint(0, 3)
     else:  # "tier": may cross the threshold
@@ -121,7 +131,7 @@ def random_cfg(rng, alg=None, family="roomy", nobs=None, maxn=4):
     alg = alg or rng.choice(["batch", "batch", "queue", "plan", "greedy"])
     cfg["alg"] = alg
     if alg == "batch":
-        cfg["parts"] = rng.choice([1, 1, 2])
+        cfg["parts"] = rng.choice([1, 1, 2]) if nm >= 2 else 1
         cap = max(1, nm // cfg["parts"])
         cfg["minPer"] = rng.randint(1, cap)
         if rng.random() < 0.2:
